@@ -182,6 +182,34 @@ def programs_arrays(tier):
         F("z", T_u(4), (100, 4), array=(3, 8), style="zpad"),       # #[bits(100..=103, rw, stride = 008)]
         F("w", T_bool(), (9, 1), array=(2, 10), style="zpad"),      # #[bit(009, rw, stride = 010)]
     ])], props=("C03", "C09", "C16")))
+    # boundary predicates (round 7): 8-bit elements NOT starting on a byte boundary with a byte-multiple stride (a byte-store fast path
+    # that forgets the start offset), an array whose topmost bit is exactly bit 32 of a wide base (a low-word fast path with <=), a
+    # strided array whose last element ends at the top bit although the stride does not tile the register
+    e8a = mk_enum("Ear8", 8, "false", values=[0xFF, 0, 0x80, 0x7F])
+    progs.append(Program("arub", enums=[e8a], structs=[S("arub32", 32, [
+        F("lowf", T_u(4), (0, 4)),
+        F("bytes", T_u(8), (4, 8), array=(3, None)),              # 4..=11, 12..=19, 20..=27
+        F("topf", T_u(4), (28, 4)),
+    ], name="Sarub32"), S("arub64", 64, [
+        F("s", T_i(8), (3, 8), array=(4, 16)),                    # 3..=10, 19..=26, 35..=42, 51..=58
+        F("e", T_enum(e8a), (11, 8), array=(2, 32)),              # 11..=18, 43..=50
+    ], name="Sarub64")], props=("C03", "C05", "C08", "C12", "C16")))
+    progs.append(Program("art32", structs=[S("art32a", 64, [
+        F("b", T_u(8), (1, 8), array=(4, None)),                  # topmost bit = 32
+    ], name="Sart32a"), S("art32b", 128, [
+        F("t", T_u(3), (0, 3), array=(11, None)),                 # 0..=32: topmost bit = 32, arbitrary-int elements
+        F("f", T_bool(), (64, 1), array=(9, 4)),                  # 64, 68, ..., 96: topmost bit = 96
+    ], name="Sart32b"), S("art64", 128, [
+        F("e", T_u(5), (0, 5), array=(13, None)),                 # 0..=64: the last element's top bit is exactly bit 64
+        F("g", T_u(8), (65, 8), array=(2, 16)),
+    ], name="Sart64")], props=("C03", "C16")))
+    progs.append(Program("arnt", structs=[S("arnt8", 8, [
+        F("a", T_u(2), (0, 2), array=(2, 6)),                     # 0..=1, 6..=7: stride 6 does not tile u8, last element at the top
+    ], name="Sarnt8"), S("arnt32", 32, [
+        F("n", T_u(4), (1, 4), array=(4, 9)),                     # 1..=4, 10..=13, 19..=22, 28..=31
+    ], name="Sarnt32"), S("arnt64", 64, [
+        F("q", T_u(4), (0, 4), array=(6, 12)),                    # last element 60..=63
+    ], name="Sarnt64")], props=("C03", "C12", "C16", "C13")))
     if tier == "thorough":
         progs.append(Program("ar127", structs=[S("ar127", 127, [
             F("x", T_u(63), (1, 63), array=(2, None)),
@@ -266,6 +294,16 @@ def programs_noncontig(tier):
         F("d", T_u(32), [(0, 31), (32, 1)]),                      # highest bit index 32
         F("q", T_u(64), [(33, 31), (64, 33)]),                    # highest bit index 96, crossing bit 64
     ], name="Sncw128")], props=("C04", "C03", "C16")))
+    # list fields of total width 2^k + 1 (9, 17, 33, 65) in a wider base: a "narrow container" chosen one bit too small drops the top bit
+    progs.append(Program("ncp1", structs=[S("ncp9", 16, [
+        F("f", T_u(9), [(0, 4), (8, 5)]),
+    ], name="Sncp9"), S("ncp17", 32, [
+        F("f", T_u(17), [(20, 9), (2, 8)]),
+    ], name="Sncp17"), S("ncp33", 64, [
+        F("f", T_u(33), [(0, 16), (30, 17)]),
+    ], name="Sncp33"), S("ncp65", 128, [
+        F("f", T_u(65), [(60, 33), (1, 32)]),
+    ], name="Sncp65")], props=("C04", "C16")))
     if tier == "thorough":
         progs.append(Program("nc33", structs=[S("nc33", 33, [
             F("x", T_u(9), [(32, 1), (0, 8)]),
@@ -343,6 +381,18 @@ def programs_signed(tier):
         F("b", T_u(10), (90, 10)),
         F("adj", T_i(8), [(4, 4), (8, 4)], array=None),
     ])], props=("C05", "C04", "C11", "C16", "C12")))
+    progs.append(Program("sgw2", structs=[S("sgw2a", 32, [
+        F("a", T_i(8), (23, 8)),                                   # highest bit is W-2: exactly one bit above the field
+        F("t", T_bool(), (31, 1)),
+    ], name="Ssgw2a"), S("sgw2b", 64, [
+        F("a", T_i(16), (47, 16)),
+        F("lo", T_i(32), (0, 32)),
+    ], name="Ssgw2b"), S("sgw2c", 128, [
+        F("lo", T_i(64), (0, 64)),                                 # i64 in the LOW half of a u128, a neighbour directly above
+        F("hi", T_u(64), (64, 64)),
+    ], name="Ssgw2c"), S("sgw2d", 128, [
+        F("p", T_i(64), (0, 64), array=(2, None)),                 # [i64; 2] filling a u128
+    ], name="Ssgw2d")], props=("C05", "C03", "C16", "C12")))
     progs.append(Program("sga100", structs=[S("sga100", 100, [
         F("sample", T_i(32), (4, 32), array=(2, 40)),              # signed array with stride > width in an arbitrary base: 4..=35, 44..=75
         F("top", T_i(8), (92, 8)),                                 # signed native field ending at the top EXPOSED bit
@@ -397,6 +447,12 @@ def programs_defaults(tier):
         v = (1 << (n - 1)) | (0x5 << (n // 2)) | 1
         progs.append(Program(f"dfc{n}", structs=[S(f"dfc{n}", n, [F("t", T_bool(), (n - 1, 1)), F("a", T_u(2), (0, 2))],
                                                   default=Default(v, "=" if n % 2 else ":", const_name=f"DFC{n}_DEFAULT"))], props=("C06",)))
+    # non-zero literal defaults whose LOW 64 bits are all zero (an is-zero test done in u64), with default bits outside every writable field
+    progs.append(Program("dfz", structs=[S("dfz128", 128, [F("a", T_u(8), (0, 8)), F("r", T_u(4), (64, 4), access="r")],
+                                            default=Default(1 << 64, "="), name="Sdfz128"),
+                                          S("dfz72", 72, [F("a", T_u(8), (8, 8))], default=Default(0xA5 << 64, ":"), name="Sdfz72"),
+                                          S("dfz128b", 128, [F("a", T_u(16), (100, 16))], default=Default((1 << 127) | (1 << 64), "="), name="Sdfz128b")],
+                         props=("C06", "C13", "C11")))
     for n in (33, 65, 71, 127):
         v = (1 << (n - 1)) | (0x3 << (n // 2)) | 2
         progs.append(Program(f"dfl{n}", structs=[S(f"dfl{n}", n, [F("t", T_bool(), (n - 1, 1)), F("a", T_u(2), (0, 2))],
@@ -507,6 +563,19 @@ def programs_enum_fields(tier):
         F("m4", FT("nested", 4, in4), [(0, 2), (20, 2)]),  # nested type over two ranges
         F("a4", FT("nested", 4, in4), (2, 4), array=(1 + 1, None)),
     ])], props=("C08", "C16")))
+    # custom types over lists of THREE pieces with holes (an unmasked middle piece picks up foreign bits) and over lists that START with
+    # a single bit (a "1-bit custom type" shortcut keyed on ranges[0].len() == 1)
+    e3p = mk_enum("Ef3p", 3, None, values=[5, 2, 7, 0])
+    in3p = Struct("In3p", 3, [F("a", T_bool(), (0, 1)), F("b", T_u(2), (1, 2))])
+    progs.append(Program("efpc", enums=[e3p, e8p], structs=[in3p, S("efpc16", 16, [
+        F("mode", T_enum(e3p), [(1, 1), (5, 1), (9, 1)]),                 # bits 1, 5, 9
+        F("op", T_enum(e3p), [(15, 1), (11, 2)]),                         # single bit FIRST, then a range
+        F("n", FT("nested", 3, in3p), [(14, 1), (2, 1), (7, 1)]),         # nested, three single bits, descending start
+        F("gap", T_u(2), (3, 2)),
+    ], name="Sefpc16"), S("efpc32", 32, [
+        F("op", T_enum(e8p), [(31, 1), (8, 7)]),                          # Option<8-bit enum>: top bit first, then 8..=14
+        F("k", T_u(8), (16, 8)),
+    ], name="Sefpc32")], props=("C08", "C04", "C16", "C12")))
     # WIDE nested bitfields (65..=128 bits): the raw value must pass through untruncated (seed C08-j: `as u64` on the way in)
     in100 = Struct("In100", 100, [F("lo", T_u(64), (0, 64)), F("mid", T_u(8), (64, 8)), F("top", T_u(4), (96, 4))])
     in72 = Struct("In72", 72, [F("lo", T_u(36), (0, 36)), F("hi", T_u(36), (36, 36))])
@@ -657,6 +726,14 @@ def programs_access(tier):
         nm = acc_ or "none"
         progs.append(Program(f"ac32{nm}", structs=[S(f"ac32{nm}", 32, [F("all", T_u(32), (0, 32), access=acc_)], default=Default(0x12345678))],
                              props=("C17", "C14")))
+    # whole-register plain fields on ARBITRARY bases, and scalar u1 fields, with one-sided access (round-7 seeds C17-m/n)
+    for acc_ in ("r", "w", ""):
+        nm = acc_ or "none"
+        progs.append(Program(f"ac24{nm}", structs=[S(f"ac24{nm}", 24, [F("all", T_u(24), (0, 24), access=acc_)], default=Default(0xABCDEF))],
+                             props=("C17", "C14", "C11")))
+    progs.append(Program("acu1", structs=[S("acu1", 8, [
+        F("ro", T_u(1), (0, 1), access="r"), F("wo", T_u(1), (1, 1), access="w"), F("no", T_u(1), (2, 1), access=""),
+        F("both", T_u(1), (3, 1), access="rw"), F("rest", T_u(4), (4, 4))], default=Default(0x05))], props=("C17", "C14", "C01", "C02")))
     progs.append(Program("ac64r", structs=[S("ac64r", 64, [F("all", T_i(64), (0, 64), access="r")])], props=("C17", "C14")))
     progs.append(Program("ac8ro", structs=[S("ac8ro", 8, [
         F("a", T_u(4), (0, 4), access="r"), F("b", T_bool(), (7, 1), access="r")], default=Default(0x81))], props=("C17", "C14")))
@@ -678,6 +755,9 @@ def programs_c14(tier):
     add("kselfov2", 32, [F("a", T_u(12), [(8, 8), (12, 4)]), F("b", T_u(8), (24, 8))], Default(0), extra=("C16",))
     add("kselfov3", 16, [F("f", T_u(12), [(8, 8), (12, 4)])], Default(0), extra=("C16",))           # overlap touching the top bit
     add("kselfov4", 8, [F("a", T_u(16), [(0, 8), (0, 8)], access="r")], Default(0), extra=("C16",))   # a listed range as wide as the storage (read-only: the writable form dies in a const-eval overflow error)
+    add("koverlaparr5", 16, [F("a", T_u(4), [(0, 2), (4, 2)], array=(2, 5))], Default(0))          # stride = span - 1: bit 5 is the top of element 0 AND the bottom of element 1 -> none
+    add("koverlaparr6", 16, [F("a", T_u(4), [(0, 2), (4, 2)], array=(2, 6))], Default(0))          # stride = span: disjoint -> builder
+    add("koverlaparr7", 32, [F("n", T_u(4), [(12, 2), (0, 2)], array=(4, 4))], Default(0))         # descending list, n[0] and n[3] share bits 12..=13 -> none
     add("koverlaparr3", 32, [F("p", T_u(4), [(0, 2), (8, 2)], array=(3, 4))], Default(0))           # elements 0 and 2 share bits 8..=9 (neighbours are disjoint) -> none
     add("ktop127ro", 128, [F("lo", T_u(64), (0, 64)), F("hi", T_u(63), (64, 63)), F("busy", T_bool(), (127, 1), access="r")])   # top bit read-only, no default -> none
     add("ktop127un", 128, [F("lo", T_u(64), (0, 64)), F("hi", T_u(63), (64, 63))])                  # top bit undeclared, no default -> none
@@ -730,6 +810,11 @@ def programs_debug(tier):
         S("dbgl128", 128, [F("x", T_i(128), [(64, 64), (0, 64)])], debug=True, name="Sdbgl128"),
         S("dbgm128", 128, [F("a", T_i(64), (64, 64)), F("b", T_u(64), (0, 64))], debug=True, name="Sdbgm128"),
         S("dbg100", 100, [F("top", T_i(64), (36, 64)), F("k", T_u(36), (0, 36))], debug=True, name="Sdbg100"),
+    ], props=("C19n",)))
+    progs.append(Program("dbgcnt", structs=[
+        S("dbg24", 32, [F(f"f{i}", T_bool(), (i, 1)) for i in range(24)], debug=True, name="Sdbg24"),
+        S("dbg25", 32, [F(f"g{i}", T_bool(), (i, 1)) for i in range(25)], debug=True, name="Sdbg25"),
+        S("dbg48", 64, [F(f"h{i}", T_bool(), (i, 1)) for i in range(48)], debug=True, name="Sdbg48"),
     ], props=("C19n",)))
     if tier == "thorough":
         e3 = mk_enum("Edb3", 3, "false", values=[7, 0, 5])
